@@ -143,7 +143,7 @@ def cvinfo(i):
 def cenv(case, i, e):
     leave = cl((f"Some {e['leave'][str(a)]}" if str(a) in e.get("leave", {}) else "None") for a in range(case["nag"]))
     return (f"{{| eid := {coq_Z(i)}; nag := {case['nag']}; lens := {cnats(e['lens'])}; mode := {MODE[e['mode']]}; "
-            f"leave := {leave}; kind := {KIND[case['obs']]} |}}")
+            f"leave := {leave}; kind := {KIND[case['obs']]}; unaligned := {'true' if e.get('unaligned') else 'false'} |}}")
 
 
 def cseed(s):
@@ -171,7 +171,7 @@ class Reference:
 
 def env_params(case, i, e):
     return dict(eid=i, nagents=case["nag"], lens=e["lens"], mode=e["mode"], leave=e.get("leave", {}),
-                kind=case["obs"], akind=case["akind"])
+                kind=case["obs"], akind=case["akind"], unaligned=bool(e.get("unaligned", False)))
 
 
 # ------------------------------------------------------------------ the driver
@@ -230,6 +230,19 @@ class C12(vlib.Driver):
             cases.append({"kind": "vec", "obs": rng.choice(c12_env.OBS_KINDS), "akind": rng.choice(c12_env.ACT_KINDS),
                           "nag": nag, "copy": rng.random() < 0.6, "seed": rng.choice([None, 0, 1, 7, 20]),
                           "envs": envs, "actions": actions(steps, nag, N)})
+        # environments whose truncation dict lists the agents in another order than the termination dict
+        for obs, lv, copy in itertools.product(("vector", "tuple"), range(3), (True, False)):
+            nag = 2 if lv < 2 else 3
+            envs = [{"lens": [1, 2], "mode": "mixed", "leave": {}, "unaligned": True},
+                    {"lens": [3], "mode": "trunc", "leave": leaves[lv], "unaligned": lv > 0},
+                    {"lens": [2], "mode": "mixed", "leave": {}}]
+            cases.append({"kind": "vec", "obs": obs, "akind": "discrete", "nag": nag, "copy": copy, "seed": 1,
+                          "envs": envs, "actions": actions(6, nag, 3)})
+        for mode, lv in itertools.product(("trunc", "mixed"), range(3)):
+            nag = 2 if lv < 2 else 3
+            cases.append({"kind": "wrap", "obs": "vector", "akind": "discrete", "nag": nag, "seed": None,
+                          "env": {"lens": [2, 1], "mode": mode, "leave": leaves[lv], "unaligned": True},
+                          "actions": [[rng.randrange(5) for _ in range(nag)] for _ in range(6)]})
         # the single-environment wrapper
         for mode, lv, obs in itertools.product(("term", "trunc", "mixed"), range(3), ("vector", "dict")):
             nag = 2 if lv < 2 else 3
@@ -407,6 +420,15 @@ class C12(vlib.Driver):
             return d
 
         out = []
+        una = [bool(e.get("unaligned")) for e in case["envs"]]
+
+        def V(i, clause, sig, detail):
+            # a sub-environment with unaligned dicts gets its own signature family (known finding of the
+            # tree without fixes/C12-worker-done-test-by-key.patch)
+            if una[i]:
+                sig = "vec:unaligned-dicts:" + clause
+                detail += " [this sub-environment lists the agents of its truncation dict in another order]"
+            return Violation(clause, sig, detail)
         # reset
         rs = obs["reset"]
         for i, ref in enumerate(refs):
@@ -445,26 +467,26 @@ class C12(vlib.Driver):
                             cl_, sig, why = "left-agent", f"vec:left-agent-obs:{site}", "the agent has left the episode: placeholder expected"
                         else:
                             cl_, sig, why = "obs", f"vec:obs:{site}", "environment stepped alone with its own actions"
-                        return [Violation(cl_, sig, f"{where} agent {a}: observation {got.get(a)}, expected {want} ({why})")]
+                        return [V(i, cl_, sig, f"{where} agent {a}: observation {got.get(a)}, expected {want} ({why})")]
                     for name, col, ref_d, ph in (("reward", rec["rew"], r, 0), ("termination", rec["term"], te, 1),
                                                  ("truncation", rec["trunc"], tr, 0)):
                         vals = {x[0]: x[1] for x in col}
                         wantv = to_int(ref_d[ag]) if ag in ref_d else ph
                         g = vals.get(a)
                         if g is None or len(g) != N or g[i] != wantv:
-                            return [Violation(name, f"vec:{name}" + ("" if ag in ref_d else ":left-agent"),
-                                              f"{where} agent {a}: {name} {g}, position {i} expected {wantv}")]
+                            return [V(i, name, f"vec:{name}" + ("" if ag in ref_d else ":left-agent"),
+                                      f"{where} agent {a}: {name} {g}, position {i} expected {wantv}")]
                     wi = {INFO_KEYS[k]: v for k, v in inf[ag].items()} if ag in inf else {}
                     if info_at(rec["info"], a, i) != wi:
-                        return [Violation("info", "vec:info" + (":autoreset" if was_reset else ""),
-                                          f"{where} agent {a}: info {info_at(rec['info'], a, i)}, alone {wi}")]
+                        return [V(i, "info", "vec:info" + (":autoreset" if was_reset else ""),
+                                  f"{where} agent {a}: info {info_at(rec['info'], a, i)}, alone {wi}")]
             if rec["info"]["unknown"]:
                 return [Violation("info", "vec:info-keys", f"unexpected info keys {rec['info']['unknown']}")]
         # only environment i is reset when it finishes: the workers' own reset counters
         for i, ref in enumerate(refs):
             c = obs["counters"][i]
             if c[2] != ref.resets or c[0] != ref.env.ord or c[1] != ref.env.t:
-                out.append(Violation("reset-count", "vec:reset-count",
+                out.append(V(i, "reset-count", "vec:reset-count",
                                      f"env {i} ended at (episode {c[0]}, t {c[1]}, {c[2]} resets); alone: "
                                      f"(episode {ref.env.ord}, t {ref.env.t}, {ref.resets} resets)"))
                 break
@@ -535,6 +557,8 @@ class C12(vlib.Driver):
             labs += [f"num_envs={len(envs)}", f"copy={case['copy']}"]
         labs += sorted({f"end={e['mode']}" for e in envs})
         labs.append("leavers" if any(e.get("leave") for e in envs) else "no-leavers")
+        if any(e.get("unaligned") for e in envs):
+            labs.append("unaligned-dicts")
         if absent:
             labs.append("branch:placeholder-filled" if case["kind"] == "vec" else "branch:agent-absent")
         labs.append("branch:auto-reset" if n_reset else "branch:no-auto-reset")
